@@ -121,8 +121,22 @@ func (c *cconn) send(w *World, p *mqttc.Packet, op *OpRec, extra time.Duration) 
 }
 
 func (c *cconn) sendRaw(w *World, b []byte, p *mqttc.Packet, op *OpRec, extra time.Duration) {
+	if c.ws != nil && !c.ws.upgraded {
+		// a WebSocket client sends no frame before it has seen the 101 response
+		c.ws.waiting = append(c.ws.waiting, func() { c.sendRaw(w, b, p, op, extra) })
+		return
+	}
 	if c.ws != nil {
 		b = c.ws.frame(w, b)
+		if len(c.ws.pending) > 0 && !c.ws.flushEv {
+			c.ws.flushEv = true
+			w.after(300*time.Microsecond, "ws-flush", func() {
+				c.ws.flushEv = false
+				if fb := c.ws.flushPending(w); fb != nil && !c.cclosed {
+					c.enqueueRaw(w, fb)
+				}
+			})
+		}
 	}
 	c.sendSeq++
 	at := time.Now().Add(w.latency() + extra)
@@ -296,7 +310,15 @@ func (c *cconn) drain(w *World) {
 		data := sg.B
 		if c.ws != nil {
 			var err error
+			was := c.ws.upgraded
 			data, err = c.ws.unframe(w, c, data, sg.Step)
+			if !was && c.ws.upgraded {
+				q := c.ws.waiting
+				c.ws.waiting = nil
+				for _, f := range q {
+					f()
+				}
+			}
 			if err != nil {
 				w.rec(&Rec{Kind: "note", C: c.cliIdx(), Conn: c.id, Op: -1, Step: sg.Step, Note: "ws error: " + err.Error()})
 				continue
@@ -773,6 +795,10 @@ func (w *World) connect(cl *cli, o *OpRec) {
 	if op.Transport == "ws" {
 		ln = nd.WsLn
 		c.ws = newWSClient(w)
+		if op.WSMode != 0 {
+			c.ws.mode = op.WSMode - 1
+		}
+		c.ws.textMode = op.WSText
 	}
 	if ln == nil || !ln.Push(c.c) {
 		// the listener is closed: the connection attempt is refused, the broker never sees it
